@@ -3,6 +3,7 @@
 package main
 
 import (
+	"bytes"
 	"fmt"
 	"sort"
 	"strings"
@@ -286,6 +287,23 @@ func runC12(c *Ctx) {
 			}
 		}
 		closure("definition-docs", doc)
+	}
+	// labels near the 999-character limit, wrapped over lines, used inside nested containers: every use must resolve
+	// exactly when the label is a label (at most 999 characters) - the definition sits at top level
+	for i, d := range longLabelDocs() {
+		c.fam("long-labels", "cases", 1)
+		closure("long-labels", d)
+		res := parseMem(d)
+		if res.err != "" {
+			continue
+		}
+		end := bytes.Index(d, []byte("]: /url"))
+		labelLen := end - 1
+		html := string(renderSafe(d))
+		resolved := strings.Contains(html, "href=\"/url\"") || strings.Contains(html, "src=\"/url\"")
+		if want := labelLen <= 999; resolved != want {
+			c.report("long-label-resolution", d, "long-labels", fmt.Sprintf("document %d: label of %d characters: expected resolved=%v, got %v", i, labelLen, want, resolved), nil, nil)
+		}
 	}
 	docStream(c.Seed, "c12", c.N(15000, 300000), true, func(idx int, kind string, doc []byte) bool {
 		c.fam(kind, "cases", 1)
